@@ -352,4 +352,284 @@ theorem flushBurned_within (bb : Balances) (st : State) : Within R (flushBurned 
       · simp [WithinP, residualSites]
       · exact ih _
 
+/-! ### `indexRunesTx`, decomposed into its phases (definitionally the same function) -/
+
+/-- the mint of `indexRunesTx` -/
+def runesMint (st0 : State) (un0 : Balances) (blk : Block) (tx : Tx) (mintId : Option RuneId) :
+    State × Outcome Balances × List Event :=
+  match mintId with
+  | none => (st0, .ok un0, [])
+  | some id =>
+    match mint st0 blk.height id with
+    | (s, none) => (s, .ok un0, [])
+    | (s, some amount) => (s, addLot un0 id amount, [.runeMinted amount blk.height id tx.txid])
+
+/-- premine + edicts of `indexRunesTx` -/
+def runesAfterEdicts (tx : Tx) (art : Artifact) (et : Option (RuneId × Nat)) (un1 : Balances) (alloc0 : Allocated) :
+    Outcome (Balances × Allocated) :=
+  match art with
+  | .cenotaph .. => .ok (un1, alloc0)
+  | .runestone edicts etching _ _ =>
+    let un2O : Outcome Balances := match et with
+      | some (id, _) => addLot un1 id ((etching.bind (·.premine)).getD 0)
+      | none => .ok un1
+    match un2O with
+    | .panic s => .panic s
+    | .err e => .err e
+    | .ok un2 => applyEdicts tx (et.map (·.1)) edicts un2 alloc0
+
+/-- mint, etching, edicts (the `phase1` of `indexRunesTx`) -/
+def runesPhase1 (st0 : State) (un0 : Balances) (alloc0 : Allocated) (blk : Block) (txIndex : Nat) (tx : Tx) :
+    Outcome (State × Balances × Allocated × List Event) :=
+  match tx.artifact with
+  | none => .ok (st0, un0, alloc0, [])
+  | some art =>
+    match runesMint st0 un0 blk tx (match art with | .runestone _ _ m _ => m | .cenotaph _ m => m) with
+    | (st1, un1O, ev1) =>
+    match un1O with
+    | .panic s => .panic s
+    | .err e => .err e
+    | .ok un1 =>
+      match etched st1 blk txIndex tx art with
+      | .panic s => .panic s
+      | .err e => .err e
+      | .ok (st2, et) =>
+        match runesAfterEdicts tx art et un1 alloc0 with
+        | .panic s => .panic s
+        | .err e => .err e
+        | .ok (un3, alloc1) =>
+          match et with
+          | some (id, rune) =>
+            let (st3, ev2) := createRuneEntry st2 blk tx art id rune
+            .ok (st3, un3, alloc1, ev1 ++ ev2)
+          | none => .ok (st2, un3, alloc1, ev1)
+
+/-- the leftovers (the `phase2` of `indexRunesTx`) -/
+def runesPhase2 (tx : Tx) (un : Balances) (alloc : Allocated) : Outcome (Allocated × Balances) :=
+  match tx.artifact with
+  | some (.cenotaph ..) =>
+    match addAllTo un [] false with
+    | .ok b => .ok (alloc, b)
+    | .panic s => .panic s
+    | .err e => .err e
+  | _ =>
+    let pointer : Option Nat := match tx.artifact with
+      | some (.runestone _ _ _ p) => p
+      | _ => none
+    let firstNonOpReturn := ((enumFrom 0 tx.outputs).find? (fun (_, o) => !o.opReturn)).map (·.1)
+    match pointer with
+    | some p =>
+      if p ≥ alloc.length then .panic "assert!(pointer < allocated.len())"
+      else match addAllTo un (alloc[p]?.getD []) true with
+        | .ok m => .ok (alloc.set p m, [])
+        | .panic s => .panic s
+        | .err e => .err e
+    | none =>
+      match firstNonOpReturn with
+      | some v =>
+        match addAllTo un (alloc[v]?.getD []) true with
+        | .ok m => .ok (alloc.set v m, [])
+        | .panic s => .panic s
+        | .err e => .err e
+      | none =>
+        match addAllTo un [] true with
+        | .ok b => .ok (alloc, b)
+        | .panic s => .panic s
+        | .err e => .err e
+
+theorem indexRunesTx_eq (st : State) (blk : Block) (txIndex : Nat) (tx : Tx) (blockBurned : Balances) :
+    indexRunesTx st blk txIndex tx blockBurned =
+      match takeInputs tx.inputs st [] with
+      | .panic s => .panic s
+      | .err e => .err e
+      | .ok (st0, un0) =>
+        match runesPhase1 st0 un0 (tx.outputs.map (fun _ => [])) blk txIndex tx with
+        | .panic s => .panic s
+        | .err e => .err e
+        | .ok (st3, un, alloc, evs) =>
+          match runesPhase2 tx un alloc with
+          | .panic s => .panic s
+          | .err e => .err e
+          | .ok (alloc2, burned0) =>
+            match writeOutputs blk tx (enumFrom 0 alloc2) st3 burned0 evs with
+            | .panic s => .panic s
+            | .err e => .err e
+            | .ok (st4, burned, evs2) =>
+              match addAllTo burned blockBurned false with
+              | .panic s => .panic s
+              | .err e => .err e
+              | .ok bb =>
+                .ok (st4, bb, evs2 ++ burned.map (fun (id, a) => Event.runeBurned a blk.height id tx.txid)) := rfl
+
+theorem runesMint_within (st0 : State) (un0 : Balances) (blk : Block) (tx : Tx) (mintId : Option RuneId) :
+    Within R (runesMint st0 un0 blk tx mintId).2.1 := by
+  unfold runesMint
+  repeat' split
+  all_goals first | trivial | exact addLot_within _ _ _
+
+theorem runesAfterEdicts_within (tx : Tx) (art : Artifact) (et : Option (RuneId × Nat)) (un1 : Balances)
+    (alloc0 : Allocated) (hlen : alloc0.length = tx.outputs.length)
+    (hed : ∀ edicts e m p, art = .runestone edicts e m p → ∀ ed ∈ edicts, ed.output ≤ tx.outputs.length) :
+    WithinP R (SameLen tx.outputs.length) (runesAfterEdicts tx art et un1 alloc0) := by
+  unfold runesAfterEdicts
+  split
+  · simp [WithinP, SameLen, hlen]
+  · rename_i edicts etching m p
+    have hed' := hed edicts etching m p rfl
+    simp only []
+    split
+    · rename_i s heq
+      split at heq
+      · exact (addLot_within _ _ _).panic_mem heq
+      · cases heq
+    · rename_i s heq
+      split at heq
+      · exact (addLot_within _ _ _).not_err heq
+      · cases heq
+    · exact applyEdicts_within tx _ edicts _ alloc0 hed' hlen
+
+theorem runesPhase1_within (st0 : State) (un0 : Balances) (alloc0 : Allocated) (blk : Block) (txIndex : Nat) (tx : Tx)
+    (hlen : alloc0.length = tx.outputs.length)
+    (hcommit : ∀ i ∈ tx.inputs, commitSafe blk.height i)
+    (hed : Valid.edictsInRange tx = true) :
+    WithinP R (fun r => r.2.2.1.length = tx.outputs.length) (runesPhase1 st0 un0 alloc0 blk txIndex tx) := by
+  unfold runesPhase1
+  split
+  · simpa [WithinP] using hlen
+  · rename_i art hart
+    have hed' : ∀ edicts e m p, art = .runestone edicts e m p → ∀ ed ∈ edicts, ed.output ≤ tx.outputs.length := by
+      intro edicts e m p hA ed hmem
+      subst hA
+      simp only [Valid.edictsInRange, hart, List.all_eq_true, Bool.and_eq_true, decide_eq_true_eq] at hed
+      exact (hed ed hmem).1
+    split
+    rename_i st1 un1O ev1 hmint
+    have hm : Within R un1O := by
+      show Within R (st1, un1O, ev1).2.1
+      rw [← hmint]
+      exact runesMint_within _ _ _ _ _
+    split
+    · rename_i heq; exact hm.panic_mem rfl
+    · rename_i heq; exact hm.not_err rfl
+    · rename_i un1
+      have he := etched_within st1 blk txIndex tx art hcommit
+      split
+      · rename_i heq; exact he.panic_mem heq
+      · rename_i heq; exact he.not_err heq
+      · rename_i st2 et _
+        have ha := runesAfterEdicts_within tx art et un1 alloc0 hlen hed'
+        split
+        · rename_i heq; exact ha.panic_mem heq
+        · rename_i heq; exact ha.not_err heq
+        · rename_i un3 alloc1 heq
+          have hl := ha.of_ok heq
+          simp only [SameLen] at hl
+          split <;> simpa [WithinP] using hl
+
+theorem runesPhase2_within (tx : Tx) (un : Balances) (alloc : Allocated)
+    (hlen : alloc.length = tx.outputs.length) (hptr : Valid.pointerInRange tx = true) :
+    Within R (runesPhase2 tx un alloc) := by
+  unfold runesPhase2
+  split
+  · have := addAllTo_within un [] false
+    split <;> simp_all [WithinP]
+  · simp only []
+    split
+    · rename_i p hp
+      split
+      · -- the pointer assert cannot fire
+        rename_i hge
+        exfalso
+        split at hp
+        · rename_i a b c p' hart
+          simp only [Valid.pointerInRange, hart] at hptr
+          subst hp
+          simp at hptr
+          omega
+        · cases hp
+      · have := addAllTo_within un (alloc[p]?.getD []) true
+        split <;> simp_all [WithinP]
+    · split
+      · rename_i v _
+        have := addAllTo_within un (alloc[v]?.getD []) true
+        split <;> simp_all [WithinP]
+      · have := addAllTo_within un [] true
+        split <;> simp_all [WithinP]
+
+theorem indexRunesTx_within (st : State) (blk : Block) (txIndex : Nat) (tx : Tx) (bb : Balances)
+    (hcommit : ∀ i ∈ tx.inputs, commitSafe blk.height i)
+    (hed : Valid.edictsInRange tx = true) (hptr : Valid.pointerInRange tx = true) :
+    Within R (indexRunesTx st blk txIndex tx bb) := by
+  rw [indexRunesTx_eq]
+  have h0 := takeInputs_within tx.inputs st []
+  split
+  · rename_i heq; exact h0.panic_mem heq
+  · rename_i heq; exact h0.not_err heq
+  · rename_i st0 un0 _
+    have h1 := runesPhase1_within st0 un0 (tx.outputs.map (fun _ => [])) blk txIndex tx (by simp) hcommit hed
+    split
+    · rename_i heq; exact h1.panic_mem heq
+    · rename_i heq; exact h1.not_err heq
+    · rename_i st3 un alloc evs heq
+      have hl := h1.of_ok heq
+      simp only at hl
+      have h2 := runesPhase2_within tx un alloc hl hptr
+      split
+      · rename_i heq; exact h2.panic_mem heq
+      · rename_i heq; exact h2.not_err heq
+      · rename_i alloc2 burned0 _
+        have h3 := writeOutputs_within blk tx (enumFrom 0 alloc2) st3 burned0 evs
+        split
+        · rename_i heq; exact h3.panic_mem heq
+        · rename_i heq; exact h3.not_err heq
+        · rename_i st4 burned evs2 _
+          have h4 := addAllTo_within burned bb false
+          split
+          · rename_i heq; exact h4.panic_mem heq
+          · rename_i heq; exact h4.not_err heq
+          · trivial
+
+theorem indexRunesBlock_go_within (blk : Block) (l : List (Nat × Tx)) (st : State) (bb : Balances) (evs : List Event)
+    (h : ∀ p ∈ l, (∀ i ∈ p.2.inputs, commitSafe blk.height i) ∧ Valid.edictsInRange p.2 = true ∧ Valid.pointerInRange p.2 = true) :
+    Within R (indexRunesBlock.go blk l st bb evs) := by
+  induction l generalizing st bb evs with
+  | nil => simp [indexRunesBlock.go, WithinP]
+  | cons p rest ih =>
+    obtain ⟨i, tx⟩ := p
+    obtain ⟨hc, he, hp⟩ := h (i, tx) List.mem_cons_self
+    have h1 := indexRunesTx_within st blk i tx bb hc he hp
+    simp only [indexRunesBlock.go]
+    split
+    · rename_i heq; exact h1.panic_mem heq
+    · rename_i heq; exact h1.not_err heq
+    · exact ih _ _ _ (fun q hq => h q (List.mem_cons_of_mem _ hq))
+
+/-- the stateless facts about a transaction that the rune updater needs -/
+def RuneSafe (height : Nat) (tx : Tx) : Prop :=
+  (∀ i ∈ tx.inputs, commitSafe height i) ∧ Valid.edictsInRange tx = true ∧ Valid.pointerInRange tx = true
+
+theorem mem_enumFrom_snd {α : Type} (l : List α) (k i : Nat) (a : α) (h : (i, a) ∈ enumFrom k l) : a ∈ l := by
+  induction l generalizing k with
+  | nil => simp [enumFrom] at h
+  | cons b bs ih =>
+    simp only [enumFrom, List.mem_cons, Prod.mk.injEq] at h
+    rcases h with ⟨_, rfl⟩ | h
+    · simp
+    · exact List.mem_cons_of_mem _ (ih _ h)
+
+theorem indexRunesBlock_within (st : State) (blk : Block) (h : ∀ tx ∈ blk.txs, RuneSafe blk.height tx) :
+    Within R (indexRunesBlock st blk) := by
+  unfold indexRunesBlock
+  have h1 := indexRunesBlock_go_within blk (enumFrom 0 blk.txs) st [] []
+    (fun p hp => h p.2 (mem_enumFrom_snd _ _ p.1 p.2 hp))
+  split
+  · rename_i heq; exact h1.panic_mem heq
+  · rename_i heq; exact h1.not_err heq
+  · rename_i st1 bb evs _
+    have h2 := flushBurned_within bb st1
+    split
+    · rename_i heq; exact h2.panic_mem heq
+    · rename_i heq; exact h2.not_err heq
+    · trivial
+
 end Ord.Index
